@@ -1557,14 +1557,18 @@ class EvolveAppTask(BaseEvolutionTask):
             mutation_types.add(type(mutation).__name__)
             mutation_lines.append('    %s,' % mutation)
 
-            if isinstance(mutation, AddField):
-                field_module = mutation.field_type.__module__
+            # Both AddField and a type-changing ChangeField name a field
+            # class that the evolution has to be able to refer to.
+            field_type = getattr(mutation, 'field_type', None)
+
+            if field_type is not None:
+                field_module = field_type.__module__
 
                 if field_module.startswith('django.db.models'):
                     imports.add('from django.db import models')
                 else:
                     import_str = ('from %s import %s' %
-                                  (field_module, mutation.field_type.__name__))
+                                  (field_module, field_type.__name__))
 
                     if field_module.startswith(app_prefix):
                         project_imports.add(import_str)
